@@ -25,7 +25,7 @@ func (p *c01) ID() string { return "C01" }
 
 var (
 	c01Nums = []float64{0, 1, 2, 3, 10, -1, 1.5}
-	c01Strs = []string{"", "a", "b", "ab", "aB", "a.", ".", "(", "a(", "*", "a*", "[", "a\nb", "a%", "_", "B", "ba", "aab"}
+	c01Strs = []string{"", "a", "b", "ab", "aB", "a.", ".", "(", "a(", "*", "a*", "[", "a\nb", "a%", "_", "B", "ba", "aab", "é", "aé", "éb", "aéb"}
 )
 
 func c01Row(id int, ia, ib int) map[string]any {
@@ -36,6 +36,17 @@ func c01Row(id int, ia, ib int) map[string]any {
 		"b":  c01Strs[ib%len(c01Strs)],
 		"b2": c01Strs[(ia*5+ib)%len(c01Strs)],
 		"c":  (ia+ib)%2 == 0,
+	}
+	// a column of native Go integers (documents built by programs, not decoded from JSON)
+	switch k := int(c01Nums[(ia+2*ib)%6]); id % 4 {
+	case 0:
+		row["k"] = k
+	case 1:
+		row["k"] = int64(k)
+	case 2:
+		row["k"] = int32(k)
+	default:
+		row["k"] = int16(k)
 	}
 	if ib%3 == 0 {
 		row["n"] = nil
@@ -60,6 +71,14 @@ func c01Atoms() (all []Expr, rep []Expr, small []Expr) {
 		}
 		all = append(all, Cmp{op, b, b2})
 	}
+	// native integer column against constants with a fractional part (and integral ones)
+	k := Col{"k"}
+	for _, op := range ops {
+		for _, cst := range []float64{2.5, -1.5, 0.5, 2, 1.5} {
+			all = append(all, Cmp{op, k, num(cst)}, Cmp{op, num(cst), k})
+		}
+		all = append(all, Cmp{op, k, a})
+	}
 	all = append(all, Cmp{"=", c, Lit{V: true}}, Cmp{"!=", c, Lit{V: false}}, Cmp{"=", c, Lit{V: false}})
 	for _, neg := range []bool{false, true} {
 		for _, l := range [][]float64{{1}, {10}, {1, 3}, {3, 1, 10}, {2, 2}, {1.5, -1, 0}} {
@@ -82,6 +101,8 @@ func c01Atoms() (all []Expr, rep []Expr, small []Expr) {
 			}
 		}
 		all = append(all, Between{X: a, Lo: num(-1), Hi: num(1.5), Neg: neg}, Between{X: a, Lo: a2, Hi: num(3), Neg: neg})
+		all = append(all, Between{X: k, Lo: num(1.5), Hi: num(2.5), Neg: neg}, Between{X: k, Lo: num(-1.5), Hi: num(0.5), Neg: neg}, Between{X: k, Lo: num(0.5), Hi: num(3), Neg: neg})
+		all = append(all, In{X: k, List: []Expr{num(2.5), num(1)}, Neg: neg}, In{X: k, List: []Expr{num(2)}, Neg: neg}, In{X: k, List: []Expr{num(0.5), num(-1.5)}, Neg: neg})
 		for _, bd := range [][2]string{{"a", "b"}, {"B", "ab"}, {"a", "a"}, {"", "a."}} {
 			all = append(all, Between{X: b, Lo: str(bd[0]), Hi: str(bd[1]), Neg: neg})
 		}
@@ -95,7 +116,7 @@ func c01Atoms() (all []Expr, rep []Expr, small []Expr) {
 	}
 	nonLike := len(all)
 	// LIKE: every pattern of length <= 3 over the alphabet
-	alpha := []string{"a", "B", "%", "_", ".", "(", "*", "["}
+	alpha := []string{"a", "B", "%", "_", ".", "(", "*", "[", "é"}
 	pats := []string{""}
 	var gen func(prefix string, left int)
 	gen = func(prefix string, left int) {
@@ -132,6 +153,7 @@ func c01Atoms() (all []Expr, rep []Expr, small []Expr) {
 		Like{X: b, Pat: "a%"}, Like{X: b, Pat: "_"}, Like{X: b, Pat: "a."}, Like{X: b, Pat: "%b", Neg: true}, Like{X: b, Pat: "(%"}, Like{X: b, Pat: "a*"}, Like{X: b, Pat: "%"}, Like{X: b, Pat: "[", Neg: true}, Like{X: b, Pat: "a_b"},
 		Is{X: n, What: "NULL"}, Is{X: n, What: "NOT NULL"}, Is{X: c, What: "TRUE"}, Is{X: c, What: "NOT TRUE"}, Is{X: c, What: "FALSE"},
 		Cmp{"<=", a2, num(3)},
+		Cmp{">=", k, num(2.5)}, Cmp{"<", num(0.5), k}, Like{X: b, Pat: "a_"}, Like{X: b, Pat: "_b", Neg: true},
 	}
 	small = []Expr{
 		Cmp{"=", a, num(1)}, Cmp{"<", a, num(2)}, Cmp{">=", a, num(10)}, Cmp{"<", a, a2}, Cmp{"<", b, str("ab")}, Cmp{"=", c, Lit{V: true}},
@@ -182,7 +204,7 @@ func (p *c01) Init(tier string) {
 		}
 	}
 	p.tables = append(p.tables, uni)
-	p.tnames = append(p.tnames, "universal(126 rows)")
+	p.tnames = append(p.tnames, "universal(154 rows)")
 	arch := [][2]int{{1, 1}, {4, 15}, {2, 3}} // (ia, ib): a=1,b="a",n=1.. ; a=10,b="B",n=NULL ; a=2,b="ab",n=NULL
 	maxRows := 3
 	if tier == "thorough" {
